@@ -1,6 +1,8 @@
 package main
 
 import (
+	"go/printer"
+	"bytes"
 	"go/token"
 	"sort"
 	"fmt"
@@ -108,6 +110,18 @@ func (x *extractor) genGuards(b *strings.Builder) {
 			return true
 		})
 		fmt.Fprintf(b, "def %s : Option (List String) := some [%s]\n", name, quoteJoin(eff))
+	}
+	// the two accessors through which Handle reads its tolerance and its retry pause
+	for _, name := range []string{"Config.TimeoutOnEOF", "Config.WaitTimeOnEOF"} {
+		_, fd := x.fn("jsonconfig", name)
+		ln := leanIdent("shape_jsonconfig_" + name)
+		if fd == nil || fd.Body == nil {
+			fmt.Fprintf(b, "def %s : Option String := none\n", ln)
+			continue
+		}
+		var buf bytes.Buffer
+		printer.Fprint(&buf, token.NewFileSet(), fd.Body)
+		fmt.Fprintf(b, "def %s : Option String := some %s\n", ln, leanString(strings.Join(strings.Fields(buf.String()), " ")))
 	}
 	// receiver writes: for every method of the library packages, the assignments (and ++/--) whose
 	// target is rooted at the receiver — the only way a method can change the object it is called on.
